@@ -508,9 +508,10 @@ def replay_comment(info):
         if rc != 0:
             continue
         ok, perr = parses(binp, out, "lua51")
-        toks_in = [t for t in luaexpr.tokenize(src) if t[0] != "comment"]
+        strip = lambda s_: s_[s_.index("\n") + 1:] if s_.startswith("#!") and "\n" in s_ else s_       # (the shebang line is no Lua token)
+        toks_in = [t for t in luaexpr.tokenize(strip(src)) if t[0] != "comment"]
         try:
-            toks_out = [t for t in luaexpr.tokenize(out) if t[0] != "comment"]
+            toks_out = [t for t in luaexpr.tokenize(strip(out)) if t[0] != "comment"]
         except luaexpr.LuaSyntaxError:
             toks_out = None
         if not ok or toks_out != toks_in:
